@@ -283,13 +283,15 @@ func (w *World) Step(a Action) *StepRec {
 		w.endBlock(rec, a)
 	case a.Kind == KRestart:
 		w.restart(rec)
+	case a.Kind == KSetParams:
+		w.setParams(rec, a)
 	case a.Kind == KTx:
 		w.runTx(rec, a.Msgs)
 	default:
 		w.runTx(rec, []Action{a})
 	}
 
-	if !rec.OK && a.Kind != KEndBlock && a.Kind != KRestart {
+	if !rec.OK && a.Kind != KEndBlock && a.Kind != KRestart && a.Kind != KSetParams {
 		// the transaction left no trace: callbacks it made and module-service answers are void
 		w.cbs = w.cbs[:cbMark]
 		w.modOuts = w.modOuts[:modMark]
@@ -330,7 +332,39 @@ func (w *World) endBlock(rec *StepRec, a Action) {
 	if d <= 0 {
 		d = 1
 	}
+	if w.TimeNs()+d > StartTimeNs+yearsNs(200) || w.TimeNs()+d < w.TimeNs() {
+		d = 5e9 // block time stays within what nanosecond timestamps can express
+	}
 	w.ctx = w.ctx.WithBlockHeight(w.Height() + 1).WithBlockTime(time.Unix(0, w.TimeNs()+d).UTC())
+}
+
+func paramsOf(cfg Config) types.Params {
+	minDep := sdk.Coins{}
+	if cfg.MinDeposit != nil {
+		minDep = sdk.NewCoins(sdk.NewCoin("stake", sdk.NewInt(*cfg.MinDeposit)))
+	}
+	return types.NewParams(cfg.MaxTimeout, cfg.Multiple, minDep, decOf(cfg.Tax), decOf(cfg.Slash),
+		time.Duration(cfg.ComplaintNs), time.Duration(cfg.ArbitrationNs), 4000, "stake")
+}
+
+// setParams applies a governance parameter change; the world's configuration (which the
+// oracles read as "the parameters in force") follows.
+func (w *World) setParams(rec *StepRec, a Action) {
+	if a.Params == nil {
+		rec.Err = "no params"
+		return
+	}
+	n := w.cfg
+	n.Tax, n.Slash, n.MaxTimeout, n.MinDeposit, n.Multiple = a.Params.Tax, a.Params.Slash, a.Params.MaxTimeout, a.Params.MinDeposit, a.Params.Multiple
+	n.ArbitrationNs, n.ComplaintNs = a.Params.ArbitrationNs, a.Params.ComplaintNs
+	p := paramsOf(n)
+	if err := p.Validate(); err != nil {
+		rec.Err = err.Error()
+		return
+	}
+	w.k.SetParams(w.ctx, p)
+	w.cfg = n
+	rec.OK = true
 }
 
 // restart models a chain restart from a zero-height export: escrow is paid out, the genesis is
